@@ -271,9 +271,9 @@ def quad_body(ctx, case):
 
 
 LAWS = [
-    given_law("single_pixel", pixel_cases(), pixel_body, {"quick": 600, "thorough": 4000}),
-    given_law("moment_scale_shift", image_cases(), image_body, {"quick": 800, "thorough": 5000}),
-    given_law("batch", batch_cases(), batch_body, {"quick": 600, "thorough": 4000}),
-    given_law("correlation", corr_cases(), corr_body, {"quick": 500, "thorough": 3000}),
-    given_law("quadcell", quad_cases(), quad_body, {"quick": 300, "thorough": 1500}),
+    given_law("single_pixel", pixel_cases(), pixel_body, {"quick": 600, "thorough": 10000}, shards={"quick": 3, "thorough": 16}),
+    given_law("moment_scale_shift", image_cases(), image_body, {"quick": 800, "thorough": 12500}, shards={"quick": 3, "thorough": 16}),
+    given_law("batch", batch_cases(), batch_body, {"quick": 600, "thorough": 10000}, shards={"quick": 3, "thorough": 16}),
+    given_law("correlation", corr_cases(), corr_body, {"quick": 500, "thorough": 7500}, shards={"quick": 3, "thorough": 16}),
+    given_law("quadcell", quad_cases(), quad_body, {"quick": 300, "thorough": 3750}, shards={"quick": 3, "thorough": 16}),
 ]
